@@ -133,7 +133,7 @@ def check_property(prop: str, tier: str, seed: int) -> int:
 
     t0 = time.time()
     spec = PROPS[prop]
-    timeout_ms = 20000 if tier == "quick" else 120000
+    timeout_ms = 60000 if tier == "quick" else 180000
     results, trusted = run_proofs(spec.get("areas", []), prop, timeout_ms)
     if spec.get("custom"):
         try:
